@@ -92,14 +92,19 @@ CLAIMS = {
           "new_writer_well_formed / write_keeps_well_formed (invariant WInv: the directory is, byte for byte, the abstract log; induction over the history: run_inv), rollover_spec + "
           "retention_keeps_newest (a roll-over removes only the oldest files beyond the limit and the new name sorts last), search_range_finds_all (byte-level search = filter, any number "
           "of files, a second continuing in the next file), index_search_first_entry (also with a torn last entry), index_entry_roundtrip, utf8_roundtrip (every character), "
-          "written_line_reads_back (with C18 line_roundtrip). PARTIAL: the line-limited search, searches through a cached position and crash prefixes are not theorems yet; they are decided "
-          "by the tie. Tie: the real DefaultMetricLogWriter / DefaultMetricSearcher (feature metric_log) run under strace; the observed system-call stream (creates, appended bytes, removals "
+          "written_line_reads_back (with C18 line_roundtrip). written_items_are_found_by_lines: the same for the line-limited search (n >= 1): a prefix of the held items from the begin "
+          "second on, at least n when there are that many, whole seconds, nothing beyond the second in which the limit was reached (search_lines_ok). search_after_crash: after any history, "
+          "let the writer die at ANY byte of the action stream of the next write (inside a roll-over's removals/creations, inside the 16 bytes of an index entry, inside a line): the "
+          "time-range search on what is on disk does not fail and returns exactly the held items of the window - what was held before plus the items of the interrupted call whose lines are "
+          "complete, minus whole files removed by retention - followed by at most one more item, the torn line misread (crash_in_write: every such prefix is a well-formed crash-shaped "
+          "directory; search_range_crash: the search on any such directory). PARTIAL: searches through a cached position (long-lived searcher), the line-limited search on crash states and "
+          "a crash during the creation of the writer are not theorems; they are decided by the tie. Tie: the real DefaultMetricLogWriter / DefaultMetricSearcher (feature metric_log) run under strace; the observed system-call stream (creates, appended bytes, removals "
           "per operation) must equal the model's action list; searches on the live directory (long-lived and fresh searchers) and on crash states materialised from prefixes of the observed "
           "stream (event boundaries, every byte of index entries, bytes of lines incl. inside a multi-byte character) must equal the model's answers; the Spec is evaluated on the "
           "implementation's answers: range search = held items of the window; line-limited search = the first lines (at least n, whole seconds); retention keeps the newest max-file-count "
           "files; after a crash every item with a complete line and index entry comes back in order, at most the torn line extra, never an error or panic."),
     design_ref="DESIGN.md §6 C19",
-    technique="Lean 4 refinement proof (byte-level directory vs abstract groups; writer invariant by induction over write histories; search = filter) + differential correspondence on the observed system-call stream incl. crash prefixes + Spec oracle on implementation answers",
+    technique="Lean 4 refinement proof (byte-level directory vs abstract groups; writer invariant by induction over write histories; search = filter; every prefix of a write's action stream is a crash-shaped well-formed directory) + differential correspondence on the observed system-call stream incl. crash prefixes + Spec oracle on implementation answers",
     note=NOTE_COMMON + " Own harness crate /verif/harness-mlog (sentinel-core with feature metric_log). strace and gen/C19.py (cutting the log, canonical file names L<day>.<no>, materialising "
          "prefixes) are trusted; file names are modelled as (day, running number), the date text is compared through Python's datetime; without strace the stream is the model's and only the "
          "directory listing after each write is compared (tag nostream in the evidence). Resource names without line breaks (a name containing a line break splits its line: characterised, outside "
